@@ -1,7 +1,7 @@
 (* Ties the hand-written model to the functions regenerated from the Python source (Gen_C12.v is rewritten on
    every run by harness/props/c12_gen.py): a semantic edit of the source makes these lemmas fail to check. *)
 From Coq Require Import List Arith Bool Lia.
-From Verif Require Import C11.Model_C11 C12.Gen_C12.
+From Verif Require Import C11.Model_C11 C12.Gen_C12 C12.ModelU_C12.
 
 Lemma gen_count_failure_eq : forall c n l, gen_count_failure (maxf c) n l = count_failure c n l.
 Proof.
@@ -14,3 +14,14 @@ Proof. reflexivity. Qed.
 
 Lemma gen_srank_eq : forall s, gen_srank s = srank s.
 Proof. intros []; reflexivity. Qed.
+
+(* the outcome cache of unique_inputs: the regenerated store is a plain binding (nothing is ever dropped or cleared), the
+   regenerated lookup is the model's lookup *)
+Lemma gen_cache_outcome_eq : forall (d : list (key * outcome)) k v, gen_cache_outcome d k v = (k, v) :: d.
+Proof. reflexivity. Qed.
+
+Lemma gen_get_cached_outcome_eq : forall (d : list (key * outcome)) k, gen_get_cached_outcome key_eqb d k = find_key k d.
+Proof.
+  intros d k. unfold gen_get_cached_outcome. induction d as [|[k' o] r IH]; cbn [gen_assoc_get find_key]; [reflexivity|].
+  destruct (key_eqb k k'); [reflexivity|exact IH].
+Qed.
